@@ -24,6 +24,22 @@ INFO = {
  "C18": dict(breaks="C18", change="UnboundedPoissonSolverPYFFTW2D.solve clears only the padding with slices [ny:, :] and [:nx, nx:] (x/y extents mixed up)", needs="2-D grid taller than wide and a solver object that has solved before (uninterrupted run) vs a fresh one (resumed run)"),
  "C19": dict(breaks="C19", change="3-D boundary damping computes the far-face coordinates from grid size * dx with the x and z extents swapped", needs="3-D grid with nx != nz and width >= 1"),
  "C20": dict(breaks="C20", change="(see notes.md)", needs="(see notes.md)"),
+ # ---- round 4 (eight properties, told all three earlier changes) ----
+ "C01d": dict(rnd=4, breaks="C01", first="see checks_run", change="2-D unbounded Poisson solver clears only the padding of its doubled buffer before each solve, with grid_size_x used for the row slice (one-off full clear in __init__)",
+              needs="grid wider than tall and the second solve on the same object", strengthening="none needed (all solver buffers are symbolic: arbitrary earlier history)"),
+ "C04d": dict(rnd=4, breaks="C04", first="see checks_run", change="3-D step subtracts the per-component mean from the vorticity before the fast-diagonalisation solve", needs="poisson_solver_type='fast_diagonalisation' and a vorticity component with non-zero sum",
+              strengthening="none needed if caught by the step scenario"),
+ "C08d": dict(rnd=4, breaks="C08", first="missed before the strengthening", change="ImmersedBodyFlowInteraction wraps the Eulerian forcing field in np.require(..., ['C','W']): a non-contiguous field is silently copied and the spread force never reaches the caller's field",
+              needs="non-C-contiguous Eulerian forcing field", strengthening="fluid+body force balance with the forcing field as the interior of a padded allocation / component-last storage"),
+ "C10d": dict(rnd=4, breaks="C10", first="missed before the strengthening", change="ImmersedBodyFlowInteraction wraps the Eulerian forcing field in np.ascontiguousarray: a non-contiguous field is silently copied", needs="non-C-contiguous Eulerian forcing field",
+              strengthening="operation histories with the caller's forcing field laid out as padded interior / Fortran order"),
+ "C13d": dict(rnd=4, breaks="C13", first="C13 delegates the characteristic function to C19, which catches it", change="3-D characteristic function: blend guard |phi| >= blend width (H(+blend width) = 0)", needs="level set exactly +blend width, 3-D",
+              strengthening="none needed (same clause as C19c; C13 lists the generator as decided in C19)"),
+ "C15d": dict(rnd=4, breaks="C15", first="missed before the strengthening", change="2-D Poisson solver: with num_threads <= 1 the convolution buffer is the Fourier buffer itself and the product is done by numpy in place; with more threads by the generated kernel (different rounding: FMA)",
+              needs="comparison of a 1-thread with a multi-thread run", strengthening="structural scenario: aliasing structure of the simulator's arrays and the sequence of compiled kernels of one step must not depend on the thread count"),
+ "C17d": dict(rnd=4, breaks="C17", first="see checks_run", change="IO.load no longer compares the stored grid size (relies on the assignment failing - but it broadcasts)", needs="file whose grid differs only on axes of extent 1", strengthening="none needed if caught by the rejection scenario"),
+ "C19d": dict(rnd=4, breaks="C19", first="missed before the strengthening", change="Lagrangian Brinkmann kernel accumulates in the output buffer (out = a*body; out += flow; out /= 1+a)", needs="in-place call with the flow-velocity buffer as output",
+              strengthening="in-place Brinkmann calls (output = field buffer / = target buffer) for the Lagrangian and the pystencils variants"),
  # ---- round 3 (agents were told both earlier changes; asked for something that is not another incomplete-key cache) ----
  "C01c": dict(rnd=3, breaks="C01", first="caught", change="2-D ENO3 y-back face kernel: branches swapped and the condition negated with < instead of <= (differs from the y-front kernel exactly at a tie)",
               needs="two vertically adjacent cells with exactly opposite non-zero y-velocity", strengthening="none needed (the upwind switch is an ite term inside the query)"),
